@@ -503,7 +503,7 @@ func init() {
 		Name:  "SM-result",
 		Doc:   "in the parse contexts every return of BasicParser is (x, err) with err known non-nil, or (url, nil) with url non-nil; (nil, nil) occurs only under a state override",
 		Props: []string{"C02"},
-		Floor: 20,
+		Floor: 12,
 		Run: func(c *Ctx, s *core.Sink) {
 			m := BuildSM(c)
 			if smProblems(m, s) {
@@ -546,7 +546,7 @@ func init() {
 		Name:  "SM-footprint",
 		Doc:   "under each state override the primary components BasicParser may write (directly or through callees) are exactly those the standard's setter may change, and only the setter's states run",
 		Props: []string{"C05"},
-		Floor: 14,
+		Floor: 10,
 		Run: func(c *Ctx, s *core.Sink) {
 			m := BuildSM(c)
 			if smProblems(m, s) {
